@@ -103,6 +103,10 @@ def emit_brace(w, f, depth, rnd, parent_counts):
             pass
         stmt = ";" if f.style.get("terse") else STMTS_C[k % len(STMTS_C)]     # terse: every statement line is a single token
         own.add(w.add(inner + stmt + ("  // t" if f.style.get("comments") and k % 4 == 0 else "")))
+    if f.style.get("continuation") and lang in ("C", "C++"):
+        own.add(w.add(inner + "y = 1 + \\"))
+        own.add(w.add(inner + "    2;"))
+        w.tags.add("continuation")
     if f.style.get("template"):
         # a template literal whose text starts right after the backtick at the end of the line; the literal's text is one
         # token beginning on the first line, the closing backtick and ';' begin on the last line
@@ -149,6 +153,12 @@ def emit_py(w, f, depth, rnd):
         last_line = w.add(text + ("  # t" if f.style.get("comments") and k % 4 == 0 else ""))
         last_len = len(text)
         own.add(last_line)
+    if f.style.get("continuation"):
+        own.add(w.add(inner + "y = 1 + \\"))
+        last_line = w.add(inner + "    2")
+        last_len = len(inner + "    2")
+        own.add(last_line)
+        w.tags.add("continuation")
     if f.style.get("tail"):
         doc = f.style["tail"]
         parts = doc.split("\n")
@@ -222,6 +232,9 @@ def programs(lang, tier="quick", seed=0):
             if flavour == "indent" and style.get("brace_next"):
                 continue
             yield render(lang, [Func(fresh(), b, style=dict(style))], rnd)
+    yield render(lang, [Func(fresh(), 3, style={"continuation": True}), Func(fresh(), 2)], rnd)
+    if lang in ("C", "C++"):
+        yield render(lang, [("macro", "#define M(x) \\\n    foo(x)"), Func(fresh(), 3), ("macro", "#define N(x) \\\n    { foo(x); }"), Func(fresh(), 2)], rnd)
     # 2. two / three functions with global code in between
     gl = GLOBALS["js" if lang in ("JavaScript", "TypeScript") else flavour]
     for g in gl:
